@@ -75,6 +75,19 @@ CLAIMED["C14"] = dict(
     note=TRUST + "; degree/lattice-to-float projection in harness/drivers/c14.py; off-lattice inputs are compared with double-precision formulas outside a 1e-9 band",
     engine="visibility")
 
+CLAIMED["C10"] = dict(
+    text=("NonInterference - only scenario-step events, propagation-event queueing, ticToc and propagation merges may change a "
+          "truth variable - is an action property of Resonaate.tla checked by TLC over every schedule, policy, visibility pattern, "
+          "output cadence and fault of the exhaustive configurations (a spec mutant in which an update merge writes a truth variable "
+          "is refuted). Families of real scenarios sharing dynamics settings, initial states and truth-affecting events but differing "
+          "in estimation on/off, policy, reward, sensor noise/masks, filter noise, output cadence, run split, completion schedule, "
+          "stubbed vs real sensing and in the presence of other agents (configured, added or removed mid-run) log the SHA-256 digest "
+          "of every agent's truth state per epoch; TLC validates each family against TruthPairs.tla (a value once defined for "
+          "(agent, epoch) must be repeated bit for bit)."),
+    ref="5 C10", technique="TLA+ action property NonInterference on Resonaate.tla + TLC; trace validation of digest records of scenario families (TruthPairs.tla)",
+    note=TRUST + "; digests are the first 56 bits of SHA-256 over float64 bytes; variants run the truth through identical float operations",
+    engine="resonaate-system")
+
 NOT_APPLICABLE = {
     "C13": ("an explicit TLA+ specification cannot evaluate a degree-20 spherical-harmonic gradient or analytic ephemerides; "
             "the property IS equality with an independent numerical reference, which would be differential testing, a "
